@@ -66,14 +66,33 @@ def derive(unit, obl):
             elif re.fullmatch(r'append_u\d+', name): op = 'append_count'
             elif re.fullmatch(r'append_u\d+_rE', name): op = 'append_count_v'
             elif re.fullmatch(r'reserve_u\d+', name): op = 'reserve'
+            elif name.startswith('assign_pE_pE'): op = 'assign_range'
+            elif name.startswith('insert_pE_pE_pE'): op = 'insert_range'
+            elif name.startswith('append_pE_pE'): op = 'append_range'
+            elif name.startswith('pop_back_val'): op = 'pop_back_val'
         if op is None:
             return None
         rec = {'flavour': fl, 'cat': cat, 'sz': sz, 'op': op}
         rec['count'] = num(v, 'count', num(v, 'capacity', 0))
+        rec['cnt'] = num(v, 'g_cnt')
     elif parts[0] in ('svb', 'vec4', 'dvb', 'fvb') and parts[1].startswith(('move_assign', 'op_assign', 'swap_impl', 'swap', 'shrink')):
         fl = {'svb': 'small', 'vec4': 'small', 'dvb': 'std', 'fvb': 'static'}[parts[0]]
         op = 'op_assign_move' if parts[1].startswith(('move_assign', 'op_assign')) else ('shrink_to_fit' if parts[1].startswith('shrink') else 'swap')
         rec = {'flavour': fl, 'cat': parts[2], 'sz': parts[3], 'op': op, 'flavour2': fl, 'sz2': parts[3]}
+    elif parts[0] == 'vec' and len(parts) >= 5:
+        # amc::Vector constructors / copy assignment: vec.<member>.<flavour>.<cat>.<size type>
+        mem, fl, cat, sz = parts[1], parts[2], parts[3], parts[4]
+        op = 'copy_assign' if mem.startswith('op_assign_rV') else ('copy_ctor' if mem.startswith('ctor_rV') else ('move_ctor' if mem.startswith('ctor_rrV') else ('count_ctor' if re.match(r'ctor_u\d+_rE', mem) else None)))
+        if op is None:
+            return None
+        rec = {'flavour': fl, 'cat': cat, 'sz': sz, 'op': op, 'count': num(v, 'count')}
+        if op in ('copy_ctor', 'move_ctor'):
+            # the source operand of the constructor is the scenario's vector
+            v = dict(v); v['pre_self.size'] = v.get('pre_o.size'); v['pre_self.capa'] = v.get('pre_o.capa'); v['pre_self.heap'] = v.get('pre_o.heap')
+        if op == 'copy_assign':
+            rec['o_size'] = num(v, 'pre_o.size'); rec['o_capa'] = num(v, 'pre_o.capa'); rec['o_heap'] = num(v, 'pre_o.heap')
+            if fl == 'std':
+                rec['o_heap'] = 1 if rec['o_capa'] > 0 else 0
     elif parts[0] == 'swap2':
         f1, f2 = parts[1].split('_')
         s1, s2 = parts[3].split('_')
@@ -131,7 +150,7 @@ def run_native(recipe, log=print):
                            ['-I' + os.path.join(REPO, 'include'), os.path.join(VERIF, 'replay', 'native_replay.cpp'), '-o', exe], capture_output=True, text=True)
         if r.returncode != 0:
             return False, 'native replayer does not build for this recipe:\n' + r.stderr[-1500:]
-    args = ['op=' + recipe['op']] + ['%s=%s' % (k, recipe[k]) for k in ('size', 'capa', 'heap', 'o_size', 'o_capa', 'o_heap', 'pos', 'pos2', 'count', 'alias', 'src', 'throws') if k in recipe]
+    args = ['op=' + recipe['op']] + ['%s=%s' % (k, recipe[k]) for k in ('size', 'capa', 'heap', 'o_size', 'o_capa', 'o_heap', 'pos', 'pos2', 'count', 'cnt', 'alias', 'src', 'throws') if k in recipe]
     try:
         r = subprocess.run([exe] + args, capture_output=True, text=True, timeout=120, env=dict(os.environ, ASAN_OPTIONS='detect_leaks=1:abort_on_error=0'))
     except subprocess.TimeoutExpired:
